@@ -253,3 +253,27 @@ MUTANTS += [
     dict(id='c08-args-copied', props=['C08'], file=CORE,
          old="            return fun(x, *args, **kwds)\n", new="            return fun(x, *[a * 1.0 for a in args], **kwds)\n"),
 ]
+
+MUTANTS += [
+    dict(id='c09-cache-key-drops-parity', props=['C09', 'C06', 'C01'], edits=[
+        (FD, "        fd_rules = FD_RULES.get((step_ratio, parity, num_terms))", "        fd_rules = FD_RULES.get((step_ratio, parity % 5, num_terms))"),
+        (FD, "            FD_RULES[(step_ratio, parity, num_terms)] = fd_rules", "            FD_RULES[(step_ratio, parity % 5, num_terms)] = fd_rules")]),
+    dict(id='c09-state-not-reset', props=['C09', 'C10'], file=SG,
+         old="        self._state = _STATE(np.asarray(x), method, n, order)\n",
+         new="        self._state = _STATE(np.asarray(x), method, n, self._state.order if hasattr(self, '_seen_once') else order)\n        self._seen_once = True\n"),
+    dict(id='c09-richardson-once', props=['C09', 'C01'], file=CORE,
+         old="        self.set_richardson_rule(step_ratio, self.richardson_terms)\n\n        return self.fd_rule.apply(results, steps, step_ratio), fxi\n\n    def set_richardson_rule",
+         new="        if not hasattr(self, '_rr_set'):\n            self.set_richardson_rule(step_ratio, self.richardson_terms)\n            self._rr_set = True\n\n        return self.fd_rule.apply(results, steps, step_ratio), fxi\n\n    def set_richardson_rule"),
+    dict(id='c09-n-setter-forgets', props=['C09'], file=CORE,
+         old="        self.fd_rule.n = value\n        self._set_derivative()", new="        self.fd_rule.n = value"),
+    dict(id='c09-module-global-scratch', props=['C09'], edits=[
+        (FD, "        fd_rules = FD_RULES.get((step_ratio, parity, num_terms))\n        if fd_rules is None:\n            fd_mat = self._fd_matrix(step_ratio, parity, num_terms)\n            fd_rules = linalg.pinv(fd_mat)\n",
+         "        global _SCRATCH\n        _SCRATCH = (step_ratio, parity, num_terms)\n        fd_rules = FD_RULES.get(_SCRATCH)\n        if fd_rules is None:\n            fd_mat = self._fd_matrix(step_ratio, parity, num_terms)\n            fd_rules = linalg.pinv(self._fd_matrix(*_SCRATCH))\n")]),
+    dict(id='c09-class-level-richardson', props=['C09'], edits=[
+        (CORE, "        self.richardson = Richardson(step_ratio=step_ratio,\n                                     step=step, order=order,\n                                     num_terms=num_terms)",
+         "        Derivative.richardson = Richardson(step_ratio=step_ratio,\n                                           step=step, order=order,\n                                           num_terms=num_terms)"),
+        (LIM, "        self.richardson = Richardson(step_ratio=1.6, step=1, order=1, num_terms=2)", "        pass")]),
+    dict(id='c09-cached-steps-on-generator', props=['C09'], file=CORE,
+         old="        step_gen = self.step.step_generator_function(x_i, method, n, order)\n        return list(step_gen()), step_gen.step_ratio",
+         new="        key = (method, n, order, np.shape(x_i))\n        cache = self.step.__dict__.setdefault('_memo', {})\n        if key not in cache:\n            step_gen = self.step.step_generator_function(x_i, method, n, order)\n            cache[key] = (list(step_gen()), step_gen.step_ratio)\n        return cache[key]"),
+]
